@@ -18,7 +18,7 @@ func (g *Gen) count(k string) { g.stats[k]++ }
 var intKinds = []string{"int", "int8", "int16", "int32", "int64"}
 var uintKinds = []string{"uint", "uint8", "uint16", "uint32", "uint64"}
 
-func named(name string) *TyDef { return FromRT(staticTypes[name], 8) }
+func named(name string) *TyDef { return FromRT(staticTypes[name], 6) }
 
 // varint-encoded scalar (WTVarInt)
 func (g *Gen) vtype() *TyDef {
